@@ -68,6 +68,37 @@ def run(ctx):
                          note=f'accepted program silently ignores node(s) {[(i, nodes[i][0]) for i in silent]} ({st}): {src!r}')
                 break
     ctx.oblige('verified checker ran on the implementation`s dumps', 'suite', drv_ok, '')
+    # source TEXT through the real lexer and parser: the in-order walk of the tree visits the tokens in SOURCE order — the (row, column)
+    # each node's lex token carries is strictly increasing along the walk — for operators written with and without surrounding spaces,
+    # not at column 0, and on later lines
+    if not ctx.replay:
+        import random as _r
+        rnd_ = _r.Random(ctx.seed + 44)
+        OPS_ = ['+', '-', '*', '/', '//', '%', '**', '<', '<=', '>', '>=', '==', '!=', '..', '>..', '..<', '>..<', '=', '<>', '&&', '||', '^^', '?>', '!>', '<~', '~>', '.', '<<', '>>', '&', '|', '^', '#=', '~']
+        atoms = ['1', '10', 'x', 'name', '"s"', ':k', '3.5', '$']
+        texts = []
+        for op in OPS_:
+            for sp in ('', ' '):
+                for pre in ('', '5 + ', '(', 'y = ', 'x = 2\n\ny = ', '{ ', '1, '):
+                    a_, b_ = rnd_.choice(atoms), rnd_.choice(atoms)
+                    close = ')' if pre == '(' else (' }' if pre == '{ ' else '')
+                    texts.append(pre + a_ + sp + op + sp + b_ + close)
+        pc = [['PTEXT', f'pt{i}', vlib.esc(t)] for i, t in enumerate(texts)]
+        pi_ = vlib.run_impl(pc, 'c04text', per_case_s=5.0)
+        nt = 0
+        for c in pc:
+            r = pi_.get(c[1], 'missing')
+            ctx.distinct.add(('text', c[2]))
+            if not r.startswith('ok '):
+                if r.split(' ')[0] in ('PANIC', 'HANG', 'ABORT', 'missing', 'improper'):
+                    ctx.fail('oracle', c, impl=r[:300], expect='a proper tree or an error', note=f'{r.split(" ")[0]} on source text {vlib.unesc(c[2])!r}')
+                continue
+            nt += 1
+            pos = [tuple(int(x) for x in p_.split(':')) for p_ in r.split(' | ')[1].split(',') if p_]
+            if any(pos[i] >= pos[i + 1] for i in range(len(pos) - 1)):
+                ctx.fail('oracle', c, impl=r[:300], expect='strictly increasing (row, column) along the in-order walk', note=f'the in-order walk of the parse tree of {vlib.unesc(c[2])!r} does not visit the tokens in source order: {pos}')
+        ctx.evaluations += len(pc)
+        stats['PTEXT in-order positions checked'] = nt
     ctx.rule = ('token-list cases: every sequence of token classes up to length 4 (sampled 1/3 in the quick tier) over a rotating class alphabet, operator pairs/triples with and without whitespace, random well-formed-looking expressions and random token soups; '
                 'each parsed and built by the real code; for every input that BOTH accept the implementation`s own node array is fed to the Lean checker proved sound and complete (properTree, in-order order, coverage of the significant tokens) '
                 'and the instruction metadata is checked to attribute every reachable value/operator node (all but Group, List/CommaList, ElseJump, Subexpression); distinct = distinct accepted token lists.')
